@@ -270,8 +270,8 @@ func c07(c *core.Ctx) {
 	c.Info("rule", "derive case = (encr, integ, prf, dh) cell of the 54 x (nonce length class, shared-secret length class, SPI corner); SK_* compared with reference prf+ slices and all 7 ready-made objects probed; "+
 		"two-party case = initiator exponent + public value, proposal through SA payload wire form, responder NewIKESAKey, initiator GetSharedKey + GenerateKeyForIKESA, keys compared and messages exchanged both ways; distinct = cell x length classes")
 	c.Info("assumptions", "reference HMAC/prf+ in /verif/harness/ref; lengths table typed from RFC 7296/4868/2404/2403")
-	c.Family("derive", c.N(54*100, 54*5000), c07Derive)
-	c.Family("two-party", c.N(162, 3000), c07TwoParty)
+	c.Family("derive", c.N(54*100, 54*100000), c07Derive)
+	c.Family("two-party", c.N(162, 30000), c07TwoParty)
 	c.Require("two_party_runs", "two_party_shared_secret_with_leading_zeros")
 }
 
@@ -402,8 +402,8 @@ func c08(c *core.Ctx) {
 	c.Info("rule", "case = (prf, ESP encr key size, integ in {none,MD5,SHA1,SHA2}) x nonce length 0..512, four keys compared with reference prf+(SK_d, Ni|Nr) slices in the order e_i2r,a_i2r,e_r2i,a_r2i; "+
 		"history case = 5/20/100 derivations on one IKESAKey interleaved with protect/unprotect, each compared with the reference and with a freshly built copy; distinct = cell x nonce length class / history length x suite")
 	c.Info("assumptions", "each derivation uses a new ChildSAKey (the method appends to the receiver's slices; reusing a ChildSAKey is outside the property)")
-	c.Family("derive", c.N(20000, 1000000), c08One)
-	c.Family("history", c.N(108, 3000), c08History)
+	c.Family("derive", c.N(20000, 30000000), c08One)
+	c.Family("history", c.N(108, 100000), c08History)
 }
 
 // ---------------------------------------------------------------------------
@@ -469,7 +469,7 @@ func c16(c *core.Ctx) {
 		"five outputs compared with octets 0-15,16-47,48-79,80-143,144-207 of reference PRF'; distinct = (|IK'|, |CK'|, identity size bucket)")
 	c.Info("assumptions", "reference PRF' = hand-built HMAC-SHA-256 iteration (RFC 5448 3.4.1)")
 	c.Family("all-length-pairs", 65*65, func(k *core.Case) { c16One(k, k.Index%65, k.Index/65) })
-	c.Family("sampled", c.N(40000, 2000000), func(k *core.Case) {
+	c.Family("sampled", c.N(40000, 60000000), func(k *core.Case) {
 		if k.R.Chance(2, 3) {
 			c16One(k, 16, 16)
 		} else {
